@@ -10,7 +10,7 @@ import (
 )
 
 var corpusC15b = []string{
-	`a == 1`, `(((((foo == 3)))))`, `not ((((not (foo in bar)))))`, `a == 1 or b == 2 and not c is empty`, `any a as x { x == 1 }`, `a ==`, `(a == 1`, `a == "/x"`, `"/x" == 1`, ``, ` `, `a == 1 `,
+	`a == 1`, `(((((foo == 3)))))`, `(((((((a == 1)))))))`, "a == \"x\ny\"", `not ((((not (foo in bar)))))`, `a == 1 or b == 2 and not c is empty`, `any a as x { x == 1 }`, `a ==`, `(a == 1`, `a == "/x"`, `"/x" == 1`, ``, ` `, `a == 1 `,
 }
 
 func dumpC15(e grammar.Expression) string {
@@ -21,6 +21,9 @@ func dumpC15(e grammar.Expression) string {
 
 func H_C15_create() {
 	s := corpusC15b[vChoose(len(corpusC15b))]
+	if vTier() == 0 && len(s) > 6 && s[:7] == "(((((((" {
+		return // thorough tier only
+	}
 	ast, perr := grammar.Parse("", []byte(s))
 	ev, cerr := CreateEvaluator(s)
 	vAssert((perr == nil) == (cerr == nil), s+": CreateEvaluator accepts exactly what grammar.Parse accepts")
